@@ -108,11 +108,19 @@ type fcache struct {
 	calls []acall
 	// claimArgs: the DRA claim allocations of the pod handed to Bind (claim id, device id pairs), DRA worlds only
 	claimArgs func(*pod_info.PodInfo) []int64
+	// before: called at the start of every Cache call (solver stream, action mode: commit boundaries)
+	before func()
 }
 
 func (f *fcache) next() bool { i := f.n; f.n++; return f.fails[i] }
+func (f *fcache) hook() {
+	if f.before != nil {
+		f.before()
+	}
+}
 
 func (f *fcache) Bind(p *pod_info.PodInfo, hostname string, ann map[string]string) error {
+	f.hook()
 	args := accepted(p)
 	args = append(args, int64(len(p.ResourceClaimInfo.ToSlice())), int64(len(ann)))
 	var kvs []string
@@ -133,6 +141,7 @@ func (f *fcache) Bind(p *pod_info.PodInfo, hostname string, ann map[string]strin
 }
 
 func (f *fcache) Evict(pod *v1.Pod, _ *podgroup_info.PodGroupInfo, md eviction_info.EvictionMetadata, msg string) error {
+	f.hook()
 	pre := ""
 	if md.Preemptor != nil {
 		pre = md.Preemptor.String()
@@ -145,6 +154,7 @@ func (f *fcache) Evict(pod *v1.Pod, _ *podgroup_info.PodGroupInfo, md eviction_i
 }
 
 func (f *fcache) TaskPipelined(t *pod_info.PodInfo, msg string) {
+	f.hook()
 	f.calls = append(f.calls, acall{"pipe", string(t.UID), t.NodeName, append([]string{}, t.GPUGroups...), []int64{fp(msg)}, nil})
 	f.next()
 }
